@@ -51,6 +51,7 @@ Fixpoint sset (nm : N) (v : stream) (ss : streams) : streams :=
 Inductive rop :=
 | RDraw (nm : N)                 (* rngs.<nm>() ; a missing stream falls back to 'default' *)
 | RSplit (only : list N) (n : nat)   (* split_rngs(rngs, splits=n, only=<those streams>) *)
+| RSplitSq (only : list N)          (* split_rngs(rngs, splits=1, only=..., squeeze=True): the stream stays scalar *)
 | RRestore                       (* restore_rngs of the most recent split *)
 | RReseed (nm : N) (seed : N).
 
@@ -66,7 +67,8 @@ Definition draw (s : stream) : list kterm * stream :=
 Definition resolve (nm : N) (ss : streams) : option N :=
   match sassoc nm ss with Some _ => Some nm | None => match sassoc default_stream ss with Some _ => Some default_stream | None => None end end.
 
-Record rstate := mkR { r_streams : streams; r_out : list (list kterm) }.
+(* r_sq: the streams split with squeeze=True (one lane, scalar key: reseed is accepted on them) *)
+Record rstate := mkR { r_streams : streams; r_out : list (list kterm); r_sq : list N }.
 
 (* None = the operation raised *)
 Definition rstep (s : rstate) (o : rop) : option rstate :=
@@ -75,7 +77,7 @@ Definition rstep (s : rstate) (o : rop) : option rstate :=
       match resolve nm (r_streams s) with
       | None => None
       | Some t => match sassoc t (r_streams s) with
-                  | Some st => let '(ks, st') := draw st in Some (mkR (sset t st' (r_streams s)) (r_out s ++ [ks]))
+                  | Some st => let '(ks, st') := draw st in Some (mkR (sset t st' (r_streams s)) (r_out s ++ [ks]) (r_sq s))
                   | None => None end
       end
   | RSplit only n =>
@@ -84,13 +86,23 @@ Definition rstep (s : rstate) (o : rop) : option rstate :=
                                  | Plain k c => if memN (fst nv) only
                                                 then (fst nv, Split (map (KSplit (KFold k c)) (seq 0 n)) (repeat 0%N n) k (c + 1))
                                                 else nv
-                                 | _ => nv end) (r_streams s)) (r_out s))
+                                 | _ => nv end) (r_streams s)) (r_out s) (r_sq s))
+  | RSplitSq only =>
+      (* the same with one lane; key[0] is kept, so the key stays a scalar *)
+      Some (mkR (map (fun nv => match snd nv with
+                                 | Plain k c => if memN (fst nv) only
+                                                then (fst nv, Split [KSplit (KFold k c) 0] [0%N] k (c + 1))
+                                                else nv
+                                 | _ => nv end) (r_streams s)) (r_out s)
+                (map fst (filter (fun nv => match snd nv with Plain _ _ => memN (fst nv) only | _ => false end) (r_streams s)) ++ r_sq s))
   | RRestore =>
-      Some (mkR (map (fun nv => match snd nv with Split _ _ bk bc => (fst nv, Plain bk bc) | _ => nv end) (r_streams s)) (r_out s))
+      Some (mkR (map (fun nv => match snd nv with Split _ _ bk bc => (fst nv, Plain bk bc) | _ => nv end) (r_streams s)) (r_out s) [])
   | RReseed nm seed =>
       match sassoc nm (r_streams s) with
-      | Some (Plain _ _) => Some (mkR (sset nm (Plain (KSeed seed) 0) (r_streams s)) (r_out s))
-      | Some (Split _ _ _ _) => None          (* ValueError: non-scalar key *)
+      | Some (Plain _ _) => Some (mkR (sset nm (Plain (KSeed seed) 0) (r_streams s)) (r_out s) (r_sq s))
+      | Some (Split _ _ bk bc) =>
+          if memN nm (r_sq s) then Some (mkR (sset nm (Split [KSeed seed] [0%N] bk bc) (r_streams s)) (r_out s) (r_sq s))
+          else None          (* ValueError: non-scalar key *)
       | None => Some s
       end
   end.
